@@ -538,6 +538,23 @@ def opFisher (sh : Int) (a : List Int) (o : Option Obs) : String :=
               let lhs := -(rsum d fun j => gW[i * d + j]!.get * gm[j]!.get)
               v := v.spec s!"offset[{i}] = -W*mean" gb[i]!.get lhs (rsum d fun j => rabs (gW[i * d + j]!.get * gm[j]!.get))
           else v := v.fail "fisher-nonfinite model"
+          -- the matrix `meanAndScatter` hands to the eigen-solver: `solve(Sw, Sb, symm_pos_def(), left)`, i.e. Sw·M = Sb with the
+          -- model's `withinScatterMoments` / `betweenScatter` (theorem fisher_scatter_spec through C02's Cholesky solve)
+          let gS := o.group "scatter"
+          if gS.size = d * d ∧ gS.all (·.isFin) then
+            let Sw := (tab2 d d (withinScatterMoments cbs classes)).at2
+            let Sb := (tab2 d d (betweenScatter cbs classes)).at2
+            let M := (tab2 d d fun i j => gS[i * d + j]!.get).at2
+            let mmax := gS.foldl (fun m x => max m (rabs x.get)) 0
+            let okSolve := (List.range d).all fun i => (List.range d).all fun j =>
+              let scale := (rsum d fun l => rabs (Sw i l * M l j)) + rabs (Sb i j)
+              rabs ((rsum d fun l => Sw i l * M l j) - Sb i j) ≤ (1 / 10000000) * (1 + scale)
+            let symm := (List.range d).all fun i => (List.range d).all fun j => rabs (M i j - M j i) ≤ tolRel * (1 + mmax)
+            if okSolve then v := { v with rel := v.rel + d * d }
+            else if symm then v := v.tag "symmetrised-scatter"        -- the repaired trainer (F-C15-7) decomposes L^-1 Sb L^-T
+            else v := v.fail "fisher-scatter: Sw * scatter = Sb violated by the matrix handed to the eigen-solver"
+            if okSolve ∧ ¬ symm then v := v.tag "scatter-not-symmetric"
+          else v := v.fail "fisher-scatter missing or non-finite"
           return v.line
   | _ => "bad-op"
 
